@@ -176,6 +176,96 @@ fn c09_fix_select_data_us915() { tape::init(); select_data_contract(US915::defau
 #[kani::unwind(74)]
 fn c09_fix_select_data_au915() { tape::init(); select_data_contract(AU915::default().0) }
 
+// ------------------------------------------------------------------ data frames versus the join bias
+/// any JoinChannels value the public API can leave behind: the bias (subband, max_retries) is whatever the user set
+/// or cleared, num_retries counts join attempts since the last reset, previous_channel is the last biased join
+/// channel (always one of the 64 narrow channels; 0 before the first biased attempt).
+fn any_join_state<F: FixedChannelRegion>(p: &mut FixedChannelPlan<F>) {
+    if tape::boolean() {
+        let sb = [Subband::_1, Subband::_2, Subband::_3, Subband::_4, Subband::_5, Subband::_6, Subband::_7, Subband::_8][tape::below(8)];
+        p.join_channels.set_join_bias(sb, tape::u8() as usize);
+    }
+    p.join_channels.num_retries = tape::u8() as usize;
+    p.join_channels.previous_channel = tape::below(64) as u8;
+}
+fn data_tx_obeys_mask<F: FixedChannelRegion>(p: &FixedChannelPlan<F>, tx: &TxChannel, dr: u8, what_dr: bool) {
+    let wide = F::datarates()[tx.dr as usize].as_ref().unwrap().bandwidth == Bandwidth::_500KHz;
+    if what_dr { assert!(tx.dr as u8 == dr, "C09 data frames use the configured data rate once the mask in force was commanded by the network"); }
+    let mut found = false;
+    let mut i = 0;
+    while i < 72 {
+        if bit(&p.channel_mask, i) && ((i >= 64) == wide) && F::uplink_channels()[i] == tx.frequency && F::downlink_channels()[i % 8] == tx.rx1_frequency { found = true; }
+        i += 1;
+    }
+    assert!(found, "C09 data frame on a channel enabled in the mask in force whose bandwidth matches the data rate used");
+}
+/// LinkADRReq accepted (Session calls channel_mask_set with a validated mask) in ANY join-bias state, then a data uplink
+fn mask_set_then_data<F: FixedChannelRegion>(mut p: FixedChannelPlan<F>) {
+    any_join_state(&mut p);
+    p.channel_mask = any_mask();
+    let m = any_mask();
+    let dr = tape::u8();
+    kani::assume(dr < NUM_DATARATES && F::datarates()[dr as usize].is_some());
+    kani::assume(usable_for::<F>(&m, dr));            // what channel_mask_validate established before channel_mask_set is called
+    let wide = F::datarates()[dr as usize].as_ref().unwrap().bandwidth == Bandwidth::_500KHz;
+    let w = tape::below(72);
+    kani::assume(bit(&m, w) && ((w >= 64) == wide));
+    p.channel_mask_set(m.clone());
+    let mut k = 0;
+    while k < 9 { assert!(p.channel_mask.get_index(k) == m.get_index(k), "C08/C09 channel_mask_set installs exactly the validated mask"); k += 1; }
+    assert!(!p.join_channels.has_bias_and_not_exhausted(), "C09 channel_mask_set ends the join bias: data frames obey the commanded mask from now on");
+    let mut rng = TapeRng { draws: 0, free: 2, accept: (w % 64) as u32 };
+    let tx = p.select_tx_channel(&mut rng, DR::from(dr), &Frame::Data);
+    data_tx_obeys_mask(&p, &tx, dr, true);
+    kani::cover!(wide, "verif-reached: 500 kHz");
+    kani::cover!(!wide, "verif-reached: 125 kHz");
+}
+// @verif props=C08,C09 obligation=FixedChannelPlan::channel_mask_set.then_data[US915] label=proved-complete tier=quick bound="every join-bias state (any subband, any retry counters), random streams = 2 arbitrary draws then an accepting draw"
+#[kani::proof]
+#[kani::unwind(74)]
+fn c09_fix_mask_set_then_data_us915() { tape::init(); mask_set_then_data(US915::default().0) }
+// @verif props=C08,C09 obligation=FixedChannelPlan::channel_mask_set.then_data[AU915] label=proved-complete tier=thorough bound="every join-bias state, random streams = 2 arbitrary draws then an accepting draw"
+#[kani::proof]
+#[kani::unwind(74)]
+fn c09_fix_mask_set_then_data_au915() { tape::init(); mask_set_then_data(AU915::default().0) }
+
+/// data uplinks while the join bias still drives the channel choice (no CFList, no LinkADRReq mask since the join).
+/// KF-C09-4 selector: the mask in force (left over from an earlier session) disables a channel of the biased
+/// subband, or the configured data rate is a 500 kHz one while the first data channel is drawn from the join subband.
+pub(crate) fn kf_bias_ignores_mask<F: FixedChannelRegion>(p: &FixedChannelPlan<F>, dr: u8) -> bool {
+    let wide = F::datarates()[dr as usize].as_ref().unwrap().bandwidth == Bandwidth::_500KHz;
+    let mut all = true;
+    let mut i = 0;
+    while i < 8 { if p.channel_mask.get_index(i) != 0xff { all = false; } i += 1; }
+    !all || (wide && !p.join_channels.has_bias_and_not_exhausted())
+}
+fn biased_data<F: FixedChannelRegion>(mut p: FixedChannelPlan<F>, witness: bool) {
+    any_join_state(&mut p);
+    // the bias drives the choice: one of the first two branches of the Data arm
+    kani::assume(p.join_channels.has_bias_and_not_exhausted() || { let mut q = p.join_channels.clone(); let mut r = TapeRng { draws: 0, free: 8, accept: 0 }; q.first_data_channel(&mut r).is_some() });
+    p.channel_mask = any_mask();
+    let dr = tape::u8();
+    kani::assume(dr < NUM_DATARATES && F::datarates()[dr as usize].is_some());
+    kani::assume(usable_for::<F>(&p.channel_mask, dr));
+    kani::assume(kf_bias_ignores_mask(&p, dr) == witness);
+    let pending = p.join_channels.has_bias_and_not_exhausted();
+    let mut rng = TapeRng { draws: 0, free: 8, accept: 0 };
+    let tx = p.select_tx_channel(&mut rng, DR::from(dr), &Frame::Data);
+    assert!(rng.draws <= 1, "C09 terminates: one draw");
+    // while the bias is pending the code deliberately sends at the join data rate (DR0); that is a defined data rate
+    data_tx_obeys_mask(&p, &tx, dr, !pending);
+    kani::cover!(pending, "verif-maybe: bias pending");
+    kani::cover!(!pending, "verif-maybe: first data channel after a biased join");
+}
+// @verif props=C09 obligation=FixedChannelPlan::select_tx_channel.contract[Data,US915,bias] label=proved-complete tier=quick bound="every join-bias state in which the bias drives the data channel, every random draw; KF-C09-4 class excluded"
+#[kani::proof]
+#[kani::unwind(74)]
+fn c09_fix_biased_data_us915() { tape::init(); biased_data(US915::default().0, false) }
+// @verif props=C09 obligation=FixedChannelPlan::select_tx_channel.contract[Data,US915,bias,KF-C09-4] label=proved-complete tier=quick finding=KF-C09-4
+#[kani::proof]
+#[kani::unwind(74)]
+fn c09_fix_biased_data_kf4_witness() { tape::init(); biased_data(US915::default().0, true) }
+
 // ------------------------------------------------------------------ join channel selection: histories from a fresh device
 fn join_history<F: FixedChannelRegion>(mut p: FixedChannelPlan<F>, steps: usize, bias: bool) {
     if bias {
